@@ -8,7 +8,7 @@ Require Import Clarabel.Base.Ops Clarabel.Base.Dyadic Clarabel.Term.Eval Clarabe
 Require Import Clarabel.Term.LemmasVerdict Clarabel.Term.LemmasCheck Clarabel.Term.LemmasCheck2
         Clarabel.Term.LemmasExp Clarabel.Term.LemmasPsd Clarabel.Term.LemmasFinal
         Clarabel.Term.LemmasAlg Clarabel.Term.Farkas Clarabel.Term.LemmasMisc
-        Clarabel.Term.FarkasGen Clarabel.Term.PairExp Clarabel.Term.PairPow Clarabel.Term.PairPsd Clarabel.Term.FarkasAll.
+        Clarabel.Term.FarkasGen Clarabel.Term.PairExp Clarabel.Term.PairPow Clarabel.Term.PairPsd Clarabel.Term.FarkasAll Clarabel.Term.LemmasRollback.
 
 Theorem C03_case_report_sound :
   forall (p : prob) (se : setD) (o : outD),
@@ -146,4 +146,54 @@ Theorem C03_report_fields :
          sol_status sol = st i /\
          sol_iterations sol = iterations i /\ r_prim sol = res_primal i /\ r_dual sol = res_dual i.
 Proof. exact @LemmasMisc.objectives_nan_iff. Qed.
+
+Theorem C03_rollback_restores :
+  forall (T : Type) (O : Ops T) (i0 : info) (d : data) (v : vars) (r : resid) 
+           (time bz qx : T) (se : settings) (iter : nat),
+         let i1 := save_prev_iterate i0 in
+         let i2 := info_update O i1 d v r time in
+         let i3 := check_termination O i2 bz qx se iter in
+         let i4 := reset_to_prev_iterate i3 in
+         cost_primal i4 = cost_primal i0 /\
+         cost_dual i4 = cost_dual i0 /\
+         res_primal i4 = res_primal i0 /\
+         res_dual i4 = res_dual i0 /\ gap_abs i4 = gap_abs i0 /\ gap_rel i4 = gap_rel i0.
+Proof. exact @LemmasRollback.rollback_restores. Qed.
+
+Theorem C03_rollback_ip_ktratio :
+  forall (i : info) (bz qx : R) (se : settings) (iter : nat),
+         st i = St_Unsolved ->
+         (eps100 se <= 1)%R ->
+         st (check_termination OpsR i bz qx se iter) = St_InsufficientProgress -> (ktratio i < 1)%R.
+Proof. exact @LemmasRollback.check_termination_ip_ktratio. Qed.
+
+Theorem C03_rollback_no_almost_infeasible :
+  forall (i : info) (bz qx bz' qx' : R) (se : settings) (iter : nat),
+         st i = St_Unsolved ->
+         (eps100 se <= 1)%R ->
+         (1 <= 1 / red_ktratio se * 1000)%R ->
+         st (check_termination OpsR i bz qx se iter) = St_InsufficientProgress ->
+         let i2 := reset_to_prev_iterate (check_termination OpsR i bz qx se iter) in
+         st (info_post_process OpsR i2 bz' qx' se) = St_AlmostSolved \/
+         st (info_post_process OpsR i2 bz' qx' se) = St_InsufficientProgress.
+Proof. exact @LemmasRollback.rollback_no_almost_infeasible. Qed.
+
+Theorem C03_rollback_almost_solved_on_restored :
+  forall (i : info) (bz qx bz' qx' : R) (se : settings) (iter : nat),
+         st i = St_Unsolved ->
+         (eps100 se <= 1)%R ->
+         (1 <= 1 / red_ktratio se * 1000)%R ->
+         st (check_termination OpsR i bz qx se iter) = St_InsufficientProgress ->
+         let i2 := reset_to_prev_iterate (check_termination OpsR i bz qx se iter) in
+         st (info_post_process OpsR i2 bz' qx' se) = St_AlmostSolved ->
+         ((prev_gap_abs i < red_gap_abs se)%R \/ (prev_gap_rel i < red_gap_rel se)%R) /\
+         (prev_res_primal i < red_feas se)%R /\ (prev_res_dual i < red_feas se)%R.
+Proof. exact @LemmasRollback.rollback_almost_solved_on_restored. Qed.
+
+Theorem C03_rollback_nonvacuous :
+  forall bz qx bz' qx' : R,
+         st
+           (info_post_process OpsR (reset_to_prev_iterate (check_termination OpsR rb_i bz qx rb_se 5)) bz' qx'
+              rb_se) = St_AlmostSolved.
+Proof. exact @LemmasRollback.rb_rollback_almost_solved. Qed.
 
